@@ -251,6 +251,52 @@ def simulateSV (sv : List Int) (n : Nat) (f : Nat → List α → Option (List N
     | .ok Option.none => .ok Option.none
     | .ok (some r) => .ok ((annotate sv r.paths).map fun X => (r.dim, X))
 
+/-! ### `simulate` with 2-D `state_values` (get_index 258-278, `_get_index` 310-317, annotation 561-562)
+
+Each state is labelled by a row of `state_values` (shape `(n, m)`); `init` is one row (ndim ≤ 1), an
+array of rows (ndim 2), or `None`; anything of higher dimension is `ValueError('invalid value')`. -/
+
+inductive Init2
+  | none
+  | row (v : List Int)              -- `np.asarray(value).ndim ≤ 1` (a scalar is never equal to a row: pass `bad`)
+  | rows (l : List (List Int))      -- `ndim = 2`: one value per row
+  | bad                             -- scalar, or `ndim ≥ 3`
+deriving Repr
+
+/-- `_get_index`, 2-D branch: `idx = 0; while idx < n: if array_equal(state_values[idx], value): return idx`
+    (`array_equal` is `False` for different shapes, so a row of another length is never found) -/
+def findRow (sv : List (List Int)) (v : List Int) : Option Nat := sv.findIdx? (· == v)
+
+def getIndexSV2 (sv : List (List Int)) (init : Init2) : Except Err Init :=
+  match init with
+  | .none => .ok .none
+  | .bad => .error .valueError
+  | .row v =>
+    match findRow sv v with
+    | some i => .ok (.scalar (Int.ofNat i))
+    | Option.none => .error .valueError
+  | .rows l =>
+    match l.mapM (findRow sv) with
+    | some is => .ok (.arr (is.map Int.ofNat))
+    | Option.none => .error .valueError
+
+/-- `X = state_values[X]` for 2-D labels: every state index is replaced by its label row -/
+def annotate2 (sv : List (List Int)) (paths : List (List Nat)) : Option (List (List (List Int))) :=
+  paths.mapM fun p => p.mapM fun s => sv[s]?
+
+/-- `simulate` when `state_values` is a 2-D integer array with `n` rows: the result has one more
+    dimension than the index array (`dim + 1`) -/
+def simulateSV2 (sv : List (List Int)) (n : Nat) (f : Nat → List α → Option (List Nat)) (init : Init2)
+    (numReps : Option Nat) (drawn : List Nat) (ts : Nat) (us : List (List α)) :
+    Except Err (Option (Nat × List (List (List Int)))) :=
+  match getIndexSV2 sv init with
+  | .error e => .error e
+  | .ok i =>
+    match simulateIndices n f i numReps drawn ts us with
+    | .error e => .error e
+    | .ok Option.none => .ok Option.none
+    | .ok (some r) => .ok ((annotate2 sv r.paths).map fun X => (r.dim + 1, X))
+
 /-! ### argument forms of `init` -/
 
 /-- How `init` reaches `simulate_indices` / `simulate`:
@@ -512,6 +558,34 @@ def runSim (n : Nat) (f : Nat → List α → Option (List Nat)) (a : SimArgs) (
   let us' := fixUs (kOf n a a.sv) a.ts us
   showHOut (stepH n f a.sv (.call a.viaSim a.init a.reps a.drawn a.ts us')).2
 
+def parseInit2? (s : String) : Option Init2 :=
+  if s = "none" then some .none
+  else if s = "bad" then some .bad
+  else match s.splitOn ":" with
+    | ["r", v] => (parseList? parseInt? v).map .row
+    | ["m", v] => (parseMat? parseInt? v).map .rows
+    | _ => Option.none
+
+def showResSV2 : Except Err (Option (Nat × List (List (List Int)))) → String
+  | .error e => showErr e
+  | .ok Option.none => "model-out-of-domain"
+  | .ok (some (dim, X)) => "dim=" ++ toString dim ++ "|k=" ++ toString X.length ++ "|X=" ++
+      (if X.isEmpty then "-" else "/".intercalate (X.map (showMat toString)))
+
+/-- `sim2`: one `simulate` call on a chain whose `state_values` are the 2-D array `sv2` -/
+def runSim2 (n : Nat) (f : Nat → List α → Option (List Nat)) (umat : List String → String → Option (List (List α)))
+    (r : List String) : String :=
+  match kvIntMat r "sv2", (kv r "init2").bind parseInit2?, (kv r "reps").bind parseReps?, kvNats r "drawn",
+        kvNat r "ts", umat r "u" with
+  | some sv, some init, some reps, some drawn, some ts, some us =>
+    let k := match getIndexSV2 sv init with
+      | .error _ => 0
+      | .ok i => match initStates n i reps drawn with
+        | .error _ => 0
+        | .ok ir => ir.states.length
+    showResSV2 (simulateSV2 sv n f init reps drawn ts (fixUs k ts us))
+  | _, _, _, _, _, _ => "bad-op"
+
 /-- tokens `o<i>.key=value` of operation `i`, prefix removed -/
 def opToks (toks : List String) (i : Nat) : List String :=
   let pre := ("o" ++ toString i ++ ".").toList
@@ -568,6 +642,22 @@ def handleSc [Add α] [LT α] [DecidableLT α] [BEq α] (sc : Sc α) (toks : Lis
         | none => cdfsDense P
       "cdfs=" ++ showMat sc.shw c ++ "|" ++ runSim P.length (pathDense c) a us
     | _, _, _ => "bad-op"
+  | "dense2" :: r =>
+    match sc.mat r "P" with
+    | some P =>
+      let c := match sc.mat r "cdfs" with
+        | some c => c
+        | none => cdfsDense P
+      runSim2 P.length (pathDense c) sc.mat r
+    | _ => "bad-op"
+  | "sparse2" :: r =>
+    match sc.list r "data", kvNats r "indices", kvNats r "indptr", kvNat r "n" with
+    | some data, some indices, some indptr, some n =>
+      let c := match sc.list r "c1d" with
+        | some c => c
+        | none => cdfs1d data indptr n
+      runSim2 n (pathSparse c indices indptr) sc.mat r
+    | _, _, _, _ => "bad-op"
   | "histdense" :: r =>
     match sc.mat r "P" with
     | some P =>
